@@ -1,10 +1,12 @@
 //go:build verif
 
-package main
+package checks
 
 import (
 	"encoding/json"
 	"fmt"
+	"os"
+	"runtime"
 	"sort"
 	"strings"
 	"sync"
@@ -26,7 +28,7 @@ type c14Scenario struct {
 }
 
 func init() {
-	registry["C14"] = func() {
+	Registry["C14"] = func() {
 		ev.Main("C14", "model_checking", 200*time.Second, 40*time.Minute, c14Body, func(c *ev.Ctx, raw json.RawMessage) {
 			var sc c14Scenario
 			if err := json.Unmarshal(raw, &sc); err != nil {
@@ -206,6 +208,17 @@ func c14Body(c *ev.Ctx) {
 	c.Set("rule", "every interleaving of the statement-level steps of server/job.go and server/server.go (instrumented from the working tree) with a model of net/http.Server, for a driver doing Run; RequestStop; AwaitStop; (bind check) x 0..2 clients x 1..2 start/stop cycles; executions are real runs of the repository code under a cooperative scheduler; states = (per-thread local history digests, channel/model-server/model-network state); an execution is cut when it reaches an explored state")
 	c.Assume("net/http.Server is modelled (vhttp), its steps mirror go1.23 server.go; the model is validated against the real server by the conformance scenarios of C14's e2e part")
 	c.Assume("interleavings inside uninstrumented libraries are atomic steps; memory-model effects are outside the scheduler's model")
+}
+
+func workers() int {
+	if s := os.Getenv("VSCHED_WORKERS"); s != "" {
+		var n int
+		fmt.Sscan(s, &n)
+		if n > 0 {
+			return n
+		}
+	}
+	return runtime.NumCPU()
 }
 
 func c14Key(f *vsched.Failure) string {
